@@ -321,6 +321,29 @@ func c14Stress(st *c14State, inputs []c14Input, shared [][]probe.Obj, G, procs, 
 					if err != nil || g2 != val || !x.o.Equal(x.copy) {
 						st.mismatch(Violation{Kind: "copy-not-independent", Version: v.Name, Steps: append(parseSteps(x.vec), Step{Op: "clone"}, Step{Op: "set", S: v.Metrics[m].Abv, Val: val}), Expected: "copy changed, original == " + x.copy.Bytes(), Observed: fmt.Sprint(err, g2, x.o.Bytes())})
 					}
+				case op < 14: // receiver history: score, Set, score ... on ONE local object; results must equal those of a freshly parsed object with the same values
+					x := &objs[r.Intn(len(objs))]
+					v := spec.Versions[x.ver]
+					api := probe.APIs[x.ver]
+					c := x.o.Clone()
+					_ = sigObj(api, c) // observe before mutating (primes any per-object memoisation)
+					for j := 0; j < 3; j++ {
+						m := r.Intn(v.N())
+						val := v.Metrics[m].Values[r.Intn(len(v.Metrics[m].Values))]
+						probe.SafeSet(c, v.Metrics[m].Abv, val)
+						got := sigObj(api, c)
+						vec, _ := probe.SafeVector(c)
+						f, err, _ := api.SafeParse(vec)
+						note("mutate-score:" + v.Name)
+						if err != nil || f == nil {
+							st.mismatch(Violation{Kind: "own-vector-rejected", Version: v.Name, Steps: parseSteps(vec), Expected: "accepted", Observed: fmt.Sprint(err)})
+							break
+						}
+						if want := sigObj(api, f); got != want {
+							st.mismatch(Violation{Kind: "result-depends-on-receiver-history", Version: v.Name, Steps: append(parseSteps(x.vec), Step{Op: "score"}, Step{Op: "set", S: v.Metrics[m].Abv, Val: val}, Step{Op: "score"}), Expected: "as for a freshly parsed " + vec + ": " + want, Observed: got})
+							break
+						}
+					}
 				case op < 15: // the object returned by ParseVector is the caller's: mutate it, parse again
 					in := &inputs[r.Intn(len(inputs))]
 					api := probe.APIs[in.ver]
